@@ -237,3 +237,17 @@ def probe(prop, ctx, name, sc, plan, cls):
         if v.cls == cls:
             return [Finding(cls, v.detail, case, v.seq, 'probe ' + name)]
     return []
+
+
+def features(prop, ctx, case, cls, detail):
+    """history predicates of a (minimised) violation, for the known-findings file"""
+    sc = case.scs['main']
+    b = ctx.build(sc)
+    f = {}
+    if not b.ok:
+        return f
+    r = common.run_one(b.exe, case.plan.text(), timeout=120)
+    m, _ = judge_run(sc, case.plan, r, prop.USE_MATCHER, False)
+    f['more_at_source_end'] = 'more-active-at-source-end' in m.notes
+    f['array'] = bool(sc.array)
+    return f
